@@ -285,6 +285,23 @@ def explore(rng, n, tag="explore"):
     return out
 
 
+def float_witness():
+    """F-C06-1: three $0.10 nodes and a $0.30 type: 0.1 + 0.1 + 0.1 = 0.30000000000000004 in float64, so the equally
+    priced type passes the strict price filter.  Always replayed (the KNOWN-FINDING line must not depend on the seed);
+    the second scenario is the control with exactly representable prices (0.125 / 0.375), where nothing is replaced."""
+    out = []
+    for name, p1, p2, p3 in (("inexact", 100, 150, 300), ("exact", 125, 187, 375)):
+        def off(p):
+            return [{"zone": "zone-a", "ct": "on-demand", "price": p, "available": True}]
+        cat = [itype("t1", 2000, off(p1)), itype("t2", 4000, off(p2)), itype("t3", 8000, off(p3))]
+        pools = [dc.pool("pa", requirements=[{"key": "karpenter.sh/capacity-type", "op": "In", "values": ["on-demand"]}])]
+        nodes = [dc.node("c%d" % i, "pa", "t1") for i in (1, 2, 3)]
+        pods = [dc.pod("p%d" % i, "c%d" % i, cpu=1500) for i in (1, 2, 3)]
+        out.append(scenario("float:" + name, cat, pools, nodes, pods, [{"a": "Method", "method": "multi"}, {"a": "Round"}],
+                            {"kind": "directed", "case": "float-" + name}))
+    return out
+
+
 def s2s_directed(rng):
     """Single-node spot-to-spot around the 15-option threshold: a spot node and k strictly cheaper spot types
     (k = 13..17, and 17 with minValues 16 / 20)."""
